@@ -178,7 +178,7 @@ fn rule_ok(dag: &[Node], i: usize, ar: &[(Rc<RT>, Rc<RT>)], fam: Fam) -> bool {
 fn alphabets(tier: Tier, fam: Fam) -> Vec<(usize, Vec<Sym>, &'static str)> {
     let core = sigma_core(fam);
     let mut v = vec![];
-    let n_full = tier.pick(4, 5);
+    let n_full = tier.pick(5, 6);
     for n in 1..=n_full {
         v.push((n, core.clone(), "core"));
     }
@@ -204,12 +204,12 @@ fn alphabets(tier: Tier, fam: Fam) -> Vec<(usize, Vec<Sym>, &'static str)> {
         Sym::Disc2,
     ];
     ext.dedup();
-    for n in 1..=tier.pick(3, 4) {
+    for n in 1..=tier.pick(4, 5) {
         v.push((n, ext.clone(), "ext"));
     }
     if tier == Tier::Thorough {
-        let reduced = vec![Sym::Iden, Sym::Unit, Sym::Witness, Sym::InjL, Sym::Take, Sym::Drop, Sym::Comp, Sym::Case, Sym::Pair, Sym::Disc2];
-        v.push((6, reduced, "reduced"));
+        let reduced = vec![Sym::Iden, Sym::Unit, Sym::Witness, Sym::InjL, Sym::Take, Sym::Comp, Sym::Case, Sym::Pair];
+        v.push((7, reduced, "reduced"));
     }
     v
 }
@@ -224,7 +224,7 @@ fn leg_dags(ctx: &Ctx, out: &mut Out) {
     let leg = "dags";
     let fam = Fam::Core;
     for (n, alpha, aname) in alphabets(ctx.tier, fam) {
-        let all_orders = n <= 5;
+        let all_orders = n <= 6;
         let mut cases: Vec<Dag> = vec![];
         // collect per shard, then run (enumeration and execution separated so that `mine` is cheap)
         enum_dags(n, &alpha, 3, &mut || ctx.mine(), &mut |d| cases.push(d.to_vec()));
